@@ -124,6 +124,11 @@ CLAIMED = {
         text="Eval(script, ctx) with the ledger semantics (absent start fails invalid-before, absent end fails invalid-hereafter) over trees of depth <= 3; TLC emits 81k (script, context) pairs; replayed under 5 time maps and 3-4 encodings, and at rule level on signed transactions.",
         note="known findings F-C29-* (0 / MaxUint64 stand for absent bounds in the API).",
         design_ref="§5 C29", engine="ledger-decision"),
+    "C30": dict(
+        technique="TLA+ model of the fee/size rules parametric in the word size (Fee.tla): TLC full grid at W=2^3 and edge grid at W=2^8 with overflow classes; replay at 64 bits (homogeneous scaling) on CalculateMinFee and real transactions of every era with non-canonical padding",
+        text="Size(tx) = |orig| - [Alonzo..Conway and 4-element envelope]; MinFee = a*Size + b with overflow reported; AcceptFee, AcceptSize; TLC proves the boundary behaviour and tags each case with its class; the driver scales the grid to 64 bits and builds real transactions whose original encoding differs from the re-encoding.",
+        note="over-estimated size for indefinite-length envelopes is an observation (errs on the strict side); Dijkstra's four-element envelope is property-silent.",
+        design_ref="§5 C30", engine="ledger-decision"),
     "C31": dict(
         technique="TLA+ token-level model of the language-views encoding and the script-data-hash decision table (LangViews.tla); TLC enumeration; independent byte writer compared with EncodeLangViews, rule rows executed on real Alonzo..Dijkstra transactions",
         text="Language views as abstract CBOR token sequences (length-then-lex key order, V1 double-wrapped indefinite list) for every subset of Plutus versions, and (redeemers?, datums?, declared hash kind) -> accept/reject; hashes computed with Blake2b-256 in the driver over non-canonical original bytes.",
